@@ -1,0 +1,235 @@
+//go:build verif
+
+package midi
+
+// Contracts for the deductive verifier in /verif (govc). The //@ lines are read by the
+// verifier; the functions named verif* are proof harnesses (lemmas over the contracts):
+// they are compiled only with -tags verif and are never called by library code.
+
+// ---------------------------------------------------------------- constructors (C07)
+
+//@ func channelMessage1
+//@ ensures fresh(result) && len(result) == 2
+//@ ensures result[0] == ((status << 4) | c) && result[1] == msg
+
+//@ func channelMessage2
+//@ ensures fresh(result) && len(result) == 3
+//@ ensures result[0] == ((status << 4) | c) && result[1] == msg1 && result[2] == msg2
+
+//@ func NoteOn
+//@ ensures [P:C07] fresh(result) && len(result) == 3
+//@ ensures [P:C07] result[0] == statusOf(9, channel)
+//@ ensures [P:C07] result[1] == clamp7(key) && result[2] == clamp7(velocity)
+
+//@ func NoteOff
+//@ ensures [P:C07] fresh(result) && len(result) == 3
+//@ ensures [P:C07] result[0] == statusOf(8, channel)
+//@ ensures [P:C07] result[1] == clamp7(key) && result[2] == 0
+
+//@ func NoteOffVelocity
+//@ ensures [P:C07] fresh(result) && len(result) == 3
+//@ ensures [P:C07] result[0] == statusOf(8, channel)
+//@ ensures [P:C07] result[1] == clamp7(key) && result[2] == clamp7(velocity)
+
+//@ func PolyAfterTouch
+//@ ensures [P:C07] fresh(result) && len(result) == 3
+//@ ensures [P:C07] result[0] == statusOf(10, channel)
+//@ ensures [P:C07] result[1] == clamp7(key) && result[2] == clamp7(pressure)
+
+//@ func ControlChange
+//@ ensures [P:C07] fresh(result) && len(result) == 3
+//@ ensures [P:C07] result[0] == statusOf(11, channel)
+//@ ensures [P:C07] result[1] == clamp7(controller) && result[2] == clamp7(value)
+
+//@ func ProgramChange
+//@ ensures [P:C07] fresh(result) && len(result) == 2
+//@ ensures [P:C07] result[0] == statusOf(12, channel) && result[1] == clamp7(program)
+
+//@ func AfterTouch
+//@ ensures [P:C07] fresh(result) && len(result) == 2
+//@ ensures [P:C07] result[0] == statusOf(13, channel) && result[1] == clamp7(pressure)
+
+//@ func Pitchbend
+//@ ensures [P:C07] fresh(result) && len(result) == 3
+//@ ensures [P:C07] result[0] == statusOf(14, channel)
+//@ ensures [P:C07] result[1] == uint8(pbUnsigned(value) & 0x7F)
+//@ ensures [P:C07] result[2] == uint8(pbUnsigned(value) >> 7)
+
+//@ func SPP
+//@ ensures [P:C07] fresh(result) && len(result) == 3 && result[0] == 0xF2
+//@ ensures [P:C07] result[1] == uint8(pointer & 0x7F)
+//@ ensures [P:C07] result[2] == uint8((pointer >> 7) & 0x7F)
+
+//@ func SongSelect
+//@ ensures [P:C07] fresh(result) && len(result) == 2 && result[0] == 0xF3
+//@ ensures [P:C07] result[1] < 0x80
+//@ ensures [P:C07] song < 0x80 ==> result[1] == song
+
+//@ func MTC
+//@ ensures [P:C07] fresh(result) && len(result) == 2 && result[0] == 0xF1
+//@ ensures [P:C07] result[1] < 0x80
+//@ ensures [P:C07] m < 0x80 ==> result[1] == m
+
+//@ func Tune
+//@ ensures [P:C07] fresh(result) && len(result) == 1 && result[0] == 0xF6
+
+// ---------------------------------------------------------------- classification (C08)
+
+//@ func getChannelType
+//@ ensures result == chanKind(canary >> 4)
+
+//@ func getRealtimeType
+//@ ensures result == rtKind(b) || (b < 0xF8 && result == UnknownMsg)
+
+//@ func getSysCommonType
+//@ ensures result == sysKind(b)
+
+//@ func getType
+//@ ensures [P:C08] mType == typeOfB(len(bt), bt[0])
+
+//@ func (Type).Is
+//@ ensures [P:C08] validT(t) && checker == ChannelMsg ==> result == isChannelT(t)
+//@ ensures [P:C08] validT(t) && checker == SysCommonMsg ==> result == isSysCommonT(t)
+//@ ensures [P:C08] validT(t) && checker == RealTimeMsg ==> result == isRealTimeT(t)
+//@ ensures [P:C08] validT(t) && checker == SysExMsg ==> result == (t == SysExMsg)
+//@ ensures [P:C08] validT(t) && checker == UnknownMsg ==> result == (t == UnknownMsg)
+//@ ensures [P:C08] validT(t) && checker > UnknownMsg ==> result == (t == checker)
+
+//@ func (Message).Type
+//@ ensures [P:C08] result == typeOfB(len(m), m[0])
+
+//@ func (Message).Is
+//@ ensures [P:C08] t == ChannelMsg ==> result == isChannelT(typeOfB(len(m), m[0]))
+//@ ensures [P:C08] t == SysCommonMsg ==> result == isSysCommonT(typeOfB(len(m), m[0]))
+//@ ensures [P:C08] t == RealTimeMsg ==> result == isRealTimeT(typeOfB(len(m), m[0]))
+//@ ensures [P:C08] t == SysExMsg ==> result == (typeOfB(len(m), m[0]) == SysExMsg)
+//@ ensures [P:C08] t == UnknownMsg ==> result == (typeOfB(len(m), m[0]) == UnknownMsg)
+//@ ensures [P:C08] t > UnknownMsg ==> result == (typeOfB(len(m), m[0]) == t)
+
+//@ func (Message).IsPlayable
+//@ ensures [P:C08] result == (typeOfB(len(m), m[0]) > UnknownMsg && typeOfB(len(m), m[0]) < firstMetaMsg)
+
+//@ func (Message).IsOneOf
+//@ loop 0 invariant 0 <= rangeindex + 1 && rangeindex + 1 <= len(checkers)
+//@ loop 0 decreases len(checkers) - rangeindex
+//@ ensures true
+
+// ---------------------------------------------------------------- accessors (C07, C08)
+
+//@ func (Message).GetNoteOn
+//@ requires distinct3(channel, key, velocity)
+//@ modifies *channel, *key, *velocity
+//@ ensures [P:C08] is ==> typeOfB(len(m), m[0]) == NoteOnMsg
+//@ ensures [P:C07] (len(m) == 3 && (m[0] & 0xF0) == 0x90) ==> is
+//@ ensures [H] is ==> len(m) == 3
+//@ ensures [P:C07] is && channel != nil ==> *channel == (m[0] & 0x0F)
+//@ ensures [P:C07] is && key != nil ==> *key == (m[1] & 0x7F)
+//@ ensures [P:C07] is && velocity != nil ==> *velocity == (m[2] & 0x7F)
+//@ ensures [H] !is && channel != nil ==> *channel == old(*channel)
+//@ ensures [H] !is && key != nil ==> *key == old(*key)
+//@ ensures [H] !is && velocity != nil ==> *velocity == old(*velocity)
+
+//@ func (Message).GetNoteOff
+//@ requires distinct3(channel, key, velocity)
+//@ modifies *channel, *key, *velocity
+//@ ensures [P:C08] is ==> typeOfB(len(m), m[0]) == NoteOffMsg
+//@ ensures [P:C07] (len(m) == 3 && (m[0] & 0xF0) == 0x80) ==> is
+//@ ensures [H] is ==> len(m) == 3
+//@ ensures [P:C07] is && channel != nil ==> *channel == (m[0] & 0x0F)
+//@ ensures [P:C07] is && key != nil ==> *key == (m[1] & 0x7F)
+//@ ensures [P:C07] is && velocity != nil ==> *velocity == (m[2] & 0x7F)
+//@ ensures [H] !is && channel != nil ==> *channel == old(*channel)
+//@ ensures [H] !is && key != nil ==> *key == old(*key)
+//@ ensures [H] !is && velocity != nil ==> *velocity == old(*velocity)
+
+//@ func (Message).GetPolyAfterTouch
+//@ requires distinct3(channel, key, pressure)
+//@ modifies *channel, *key, *pressure
+//@ ensures [P:C08] is ==> typeOfB(len(m), m[0]) == PolyAfterTouchMsg
+//@ ensures [P:C07] (len(m) == 3 && (m[0] & 0xF0) == 0xA0) ==> is
+//@ ensures [H] is ==> len(m) == 3
+//@ ensures [P:C07] is && channel != nil ==> *channel == (m[0] & 0x0F)
+//@ ensures [P:C07] is && key != nil ==> *key == (m[1] & 0x7F)
+//@ ensures [P:C07] is && pressure != nil ==> *pressure == (m[2] & 0x7F)
+//@ ensures [H] !is && channel != nil ==> *channel == old(*channel)
+//@ ensures [H] !is && key != nil ==> *key == old(*key)
+//@ ensures [H] !is && pressure != nil ==> *pressure == old(*pressure)
+
+//@ func (Message).GetControlChange
+//@ requires distinct3(channel, controller, value)
+//@ modifies *channel, *controller, *value
+//@ ensures [P:C08] is ==> typeOfB(len(m), m[0]) == ControlChangeMsg
+//@ ensures [P:C07] (len(m) == 3 && (m[0] & 0xF0) == 0xB0) ==> is
+//@ ensures [H] is ==> len(m) == 3
+//@ ensures [P:C07] is && channel != nil ==> *channel == (m[0] & 0x0F)
+//@ ensures [P:C07] is && controller != nil ==> *controller == (m[1] & 0x7F)
+//@ ensures [P:C07] is && value != nil ==> *value == (m[2] & 0x7F)
+//@ ensures [H] !is && channel != nil ==> *channel == old(*channel)
+//@ ensures [H] !is && controller != nil ==> *controller == old(*controller)
+//@ ensures [H] !is && value != nil ==> *value == old(*value)
+
+//@ func (Message).GetAfterTouch
+//@ requires distinct2(channel, pressure)
+//@ modifies *channel, *pressure
+//@ ensures [P:C08] is ==> typeOfB(len(m), m[0]) == AfterTouchMsg
+//@ ensures [P:C07] (len(m) == 2 && (m[0] & 0xF0) == 0xD0) ==> is
+//@ ensures [P:C07] is && channel != nil ==> *channel == (m[0] & 0x0F)
+//@ ensures [P:C07] is && pressure != nil ==> *pressure == (m[1] & 0x7F)
+//@ ensures [H] !is && channel != nil ==> *channel == old(*channel)
+//@ ensures [H] !is && pressure != nil ==> *pressure == old(*pressure)
+
+//@ func (Message).GetProgramChange
+//@ requires distinct2(channel, program)
+//@ modifies *channel, *program
+//@ ensures [P:C08] is ==> typeOfB(len(m), m[0]) == ProgramChangeMsg
+//@ ensures [P:C07] (len(m) == 2 && (m[0] & 0xF0) == 0xC0) ==> is
+//@ ensures [P:C07] is && channel != nil ==> *channel == (m[0] & 0x0F)
+//@ ensures [P:C07] is && program != nil ==> *program == (m[1] & 0x7F)
+//@ ensures [H] !is && channel != nil ==> *channel == old(*channel)
+//@ ensures [H] !is && program != nil ==> *program == old(*program)
+
+//@ func (Message).GetPitchBend
+//@ modifies *channel, *relative, *absolute
+//@ ensures [P:C08] is ==> typeOfB(len(m), m[0]) == PitchBendMsg
+//@ ensures [P:C07] (len(m) == 3 && (m[0] & 0xF0) == 0xE0) ==> is
+//@ ensures [P:C07] is && channel != nil ==> *channel == (m[0] & 0x0F)
+//@ ensures [P:C07] is && absolute != nil ==> *absolute == ((uint16(m[2] & 0x7F) << 7) | uint16(m[1] & 0x7F))
+//@ ensures [P:C07] is && relative != nil ==> *relative == int16((uint16(m[2] & 0x7F) << 7) | uint16(m[1] & 0x7F)) - 8192
+
+//@ func (Message).GetMTC
+//@ modifies *quarterframe
+//@ ensures [P:C08] is ==> typeOfB(len(m), m[0]) == MTCMsg
+//@ ensures [P:C07] (len(m) == 2 && m[0] == 0xF1) ==> is
+//@ ensures [P:C07] is && quarterframe != nil ==> *quarterframe == (m[1] & 0x7F)
+
+//@ func (Message).GetSongSelect
+//@ modifies *song
+//@ ensures [P:C08] is ==> typeOfB(len(m), m[0]) == SongSelectMsg
+//@ ensures [P:C07] (len(m) == 2 && m[0] == 0xF3) ==> is
+//@ ensures [P:C07] is && song != nil ==> *song == (m[1] & 0x7F)
+
+//@ func (Message).GetSPP
+//@ modifies *spp
+//@ ensures [P:C08] is ==> typeOfB(len(m), m[0]) == SPPMsg
+//@ ensures [P:C07] (len(m) == 3 && m[0] == 0xF2) ==> is
+//@ ensures [P:C07] is && spp != nil ==> *spp == ((uint16(m[2] & 0x7F) << 7) | uint16(m[1] & 0x7F))
+
+//@ func (Message).GetSysEx
+//@ requires bt != nil
+//@ modifies *bt
+//@ ensures [P:C08] result ==> typeOfB(len(m), m[0]) == SysExMsg
+
+//@ func (Message).GetChannel
+//@ modifies *channel
+//@ ensures [P:C08] is ==> isChannelT(typeOfB(len(m), m[0]))
+//@ ensures is && channel != nil ==> *channel == (m[0] & 0x0F)
+
+//@ func (Message).GetNoteStart
+//@ requires distinct3(channel, key, velocity)
+//@ modifies *channel, *key, *velocity
+//@ ensures [P:C08] is ==> typeOfB(len(m), m[0]) == NoteOnMsg
+
+//@ func (Message).GetNoteEnd
+//@ requires distinct2(channel, key)
+//@ modifies *channel, *key
+//@ ensures [P:C08] is ==> (typeOfB(len(m), m[0]) == NoteOnMsg || typeOfB(len(m), m[0]) == NoteOffMsg)
